@@ -244,7 +244,10 @@ func (c09) Run(ctx *core.RunCtx) {
 		return
 	}
 	var sc *c09Scheme
-	switch ch.Weighted("scheme", []int{4, 4, 4, 2, 1, 2, 1}) {
+	switch ch.Weighted("scheme", []int{8, 8, 8, 4, 2, 4, 2, 1}) {
+	case 7:
+		c09RingPackRun(ctx)
+		return
 	case 6:
 		c09RingQPRun(ctx)
 		return
@@ -346,6 +349,22 @@ func (c09) Run(ctx *core.RunCtx) {
 				out.Scale = sc.newScale(g)
 			}
 			patName = fmt.Sprintf("dirty-out(deg=%d,level=%d)", dd, dl)
+			if !op.callerSetsMeta && dd > 1 && ch.Chance("dirty-shrunk", 1, 2) || !op.callerSetsMeta && dd == 1 && dl > op0.Level() && ch.Chance("dirty-shrunk-level", 1, 3) {
+				// ... and was shrunk since (as a relinearization or a rescaling in place does): the surplus component
+				// and rows sit in the spare capacity of the receiver
+				sd, sl := dd-ch.Draw("shrink-degree", 2), dl-ch.Draw("shrink-level", 2)
+				if sl < op0.Level() {
+					sl = op0.Level()
+				}
+				if sd < 1 {
+					// a receiver without a second component is another matter (several operations index it)
+					sd = 1
+				}
+				out.Resize(sd, sl)
+				patName = fmt.Sprintf("dirty-out(deg=%d,level=%d,shrunk from %d,%d)", sd, sl, dd, dl)
+				ctx.Count("probe.dirty-output-shrunk", 1)
+				dd, dl = sd, sl
+			}
 			if dd > nat {
 				ctx.Count("probe.dirty-output-larger-degree", 1)
 			}
@@ -365,7 +384,14 @@ func (c09) Run(ctx *core.RunCtx) {
 		}
 		if op.accum && out != op0 && (!op1IsCt || out != c1) {
 			// accumulator: an in-out operand with real content
-			acc := pool[ch.Draw("accumulator", len(pool))].CopyNew()
+			// the accumulator is a value of the pool: a copy of it, or (one time in two) the very object with
+			// whatever its history left in it (spare capacity of a previous larger degree or level)
+			acc := pool[ch.Draw("accumulator", len(pool))]
+			if acc == op0 || op1IsCt && acc == c1 || !ch.Bool("accumulator-with-history") {
+				acc = acc.CopyNew()
+			} else {
+				ctx.Count("probe.accumulator-with-history", 1)
+			}
 			if pat != 5 {
 				out = acc
 				patName += "+accumulator"
